@@ -500,11 +500,11 @@ fn gen_script(rng: &mut Rng, tier: Tier) -> Script {
     let mut k = 0;
     for j in 1..=njobs {
         let body = match rng.below(5) {
-            0 => format!("{{ selfstop; echo r{j} >>/work/log; exit {j}; }}"),
-            1 => format!("{{ nap {}; exit {j}; }}", rng.range(1, 9)),
+            0 => format!("{{ pgcheck; selfstop; echo r{j} >>/work/log; exit {j}; }}"),
+            1 => format!("{{ pgcheck; nap {}; exit {j}; }}", rng.range(1, 9)),
             2 => format!("{{ selfstop; selfstop; exit {j}; }}"),
-            3 => format!("{{ nap {}; selfstop; exit {j}; }}", rng.range(1, 4)),
-            _ => format!("{{ exit {j}; }}"),
+            3 => format!("{{ pgcheck; nap {}; selfstop; exit {j}; }}", rng.range(1, 4)),
+            _ => format!("{{ pgcheck; exit {j}; }}"),
         };
         lines.push(format!("{body} &"));
         k += 1;
@@ -539,7 +539,7 @@ fn gen_script(rng: &mut Rng, tier: Tier) -> Script {
             6 => "jobs >|/work/jl; jobsout /work/jl op".to_string(),
             7 => "jobs -l >/dev/null; jobs -n >/dev/null".to_string(),
             8 => format!("nap {}", rng.range(1, 6)),
-            9 => format!("fg %{j} >/dev/null 2>&1; jobcheck 7{j} fg:$?:{j}"),
+            9 => format!("jobcheck 6{j}; fg %{j} >/dev/null 2>&1; jobcheck 7{j} fg:$?:{j}"),
             10 => format!("for i in 1 2; do nap 1; jobcheck 9{j}; done"),
             _ => format!("f() {{ nap 1; jobcheck 8{j}; }}; f"),
         };
@@ -622,7 +622,7 @@ fn job_env(rate: u32) -> impl FnMut(&mut Sim, u64) -> bool {
     }
 }
 
-fn check_script_run(obs: &Observed) -> Option<Viol> {
+fn check_script_run(s: &Script, obs: &Observed) -> Option<Viol> {
     // invariant failures recorded by the jobcheck probe come first
     for e in &obs.history {
         if e.kind == "jobcheck-fail" {
@@ -652,6 +652,73 @@ fn check_script_run(obs: &Observed) -> Option<Viol> {
             }
         }
     }
+    // `fg %N` of a suspended job that stops again: "if the job gets suspended
+    // again, it is set as the current job", and the former current job becomes
+    // the previous one. Judged only when nothing else can have moved the marks
+    // in between: no external events, and between the two views of the table no
+    // signal sent by or to any other process.
+    if s.ext_rate == 0 {
+        struct View {
+            seq: u64,
+            jobs: Vec<(usize, i32, String)>,
+            cur: Option<usize>,
+            prev: Option<usize>,
+            fg: Option<(u32, usize)>,
+        }
+        let parse = |e: &crate::sim::Ev| -> Option<View> {
+            let table = e.text.split("jobs=").nth(1)?;
+            let (table, rest) = table.split_once(" cur=")?;
+            let (cur, prev) = rest.split_once(" prev=")?;
+            let idx = |t: &str| t.trim().strip_prefix("Some(").and_then(|r| r.strip_suffix(')')).and_then(|n| n.parse::<usize>().ok());
+            let mut jobs = Vec::new();
+            for item in table.split(',').filter(|i| !i.is_empty()) {
+                let (i, r) = item.trim_start_matches('[').split_once(']')?;
+                let (p, st) = r.split_once(':')?;
+                jobs.push((i.parse().ok()?, p.parse().ok()?, st.to_string()));
+            }
+            let fg = e.text.split_whitespace().find_map(|w| {
+                let r = w.strip_prefix("fg:")?;
+                let (st, n) = r.split_once(':')?;
+                Some((st.parse().ok()?, n.parse().ok()?))
+            });
+            Some(View { seq: e.seq, jobs, cur: idx(cur), prev: idx(prev), fg })
+        };
+        let views: Vec<View> = obs.history.iter().filter(|e| e.kind == "jobcheck" && e.pid == 2).filter_map(parse).collect();
+        for w in views.windows(2) {
+            let (pre, post) = (&w[0], &w[1]);
+            let Some((status, n)) = post.fg else { continue };
+            // (384 + SIGSTOP: the job was suspended again)
+            if status != 384 + 116 || n == 0 {
+                continue;
+            }
+            let Some(target) = pre.jobs.iter().find(|j| j.0 == n - 1) else { continue };
+            if !target.2.starts_with("stopped") {
+                continue;
+            }
+            let p = target.1;
+            let quiet = !obs.history.iter().any(|e| {
+                e.seq > pre.seq && e.seq < post.seq && e.kind == "kill" && e.pid != p && !(e.pid == 2 && (e.a == p as i64 || e.a == -(p as i64)))
+            });
+            if !quiet {
+                continue;
+            }
+            let want_prev = pre.cur.filter(|c| *c != n - 1 && pre.jobs.iter().any(|j| j.0 == *c && j.2.starts_with("stopped")));
+            let bad_cur = post.cur != Some(n - 1);
+            let bad_prev = want_prev.is_some() && post.prev != want_prev;
+            if bad_cur || bad_prev {
+                return Some((
+                    "fg-resuspended".into(),
+                    "fg-resuspended".into(),
+                    format!(
+                        "`fg %{n}` resumed a suspended job that was suspended again: it must be the current job now{}; before: {} | after: {}",
+                        want_prev.map_or(String::new(), |c| format!(" and job {} the previous one", c + 1)),
+                        obs.history.iter().find(|e| e.seq == pre.seq).map_or("", |e| e.text.as_str()),
+                        obs.history.iter().find(|e| e.seq == post.seq).map_or("", |e| e.text.as_str()),
+                    ),
+                ));
+            }
+        }
+    }
     if let Some(v) = check_liveness(obs) {
         // stopped children that nobody continues are the script's business only
         // if the main shell did not finish
@@ -671,7 +738,7 @@ fn spec_of(s: &Script) -> ScriptSpec {
 
 fn run_script_case(s: &Script, cfg: &SimConfig, decider: Decider) -> (Observed, Option<Viol>) {
     let obs = run_script_with(&spec_of(s), cfg, decider, |_| {}, job_env(s.ext_rate));
-    let v = check_script_run(&obs);
+    let v = check_script_run(s, &obs);
     (obs, v)
 }
 
